@@ -1326,6 +1326,16 @@ class BinaryOperator(SymbolicExpression, ABC):
         cache = self._cache_ if cache is None else cache
         cache.insert({k: v for k, v in values.items() if k in cache.keys}, output=self._is_false_)
 
+    def mark_cache_complete(self, sources: Dict[int, HashedValue], cache: Optional[IndexedCache] = None):
+        """
+        Record in the cache that the evaluation under the given sources ran to completion, only then the cache may
+        answer for these sources instead of evaluating again.
+        """
+        if not is_caching_enabled():
+            return
+        cache = self._cache_ if cache is None else cache
+        cache.mark_complete(sources)
+
     @property
     @lru_cache(maxsize=None)
     def _all_variable_instances_(self) -> List[Variable]:
@@ -1518,6 +1528,7 @@ class Comparator(BinaryOperator):
                     values[self._id_] = HashedValue(res)
                     self.update_cache(values)
                     yield values
+        self.mark_cache_complete(sources)
 
     def apply_operation(self, operand_values: Dict[int, HashedValue]):
         return self.operation(operand_values[self.left._id_].value, operand_values[self.right._id_].value)
@@ -1606,6 +1617,7 @@ class AND(LogicalOperator):
                         self._is_false_ = self.right._is_false_
                         self.update_cache(right_value, self.right_cache)
                         yield output
+                    self.mark_cache_complete(left_value, self.right_cache)
                 finally:
                     self.right._eval_parent_ = right_prev
         finally:
@@ -1681,7 +1693,9 @@ class Union(OR):
         finally:
             self.left._eval_parent_ = left_prev
         self.left_evaluated = False
+        initial_sources = copy(sources)
         yield from self.evaluate_right(sources)
+        self.mark_cache_complete(initial_sources)
 
     def evaluate_right(self, sources: Optional[Dict[int, HashedValue]]) -> Iterable[Dict[int, HashedValue]]:
         right_values = self.right._evaluate__(sources, yield_when_false=self._yield_when_false_)
@@ -1745,6 +1759,7 @@ class ElseIf(OR):
                                     continue
                             self.update_cache(right_value, self.right_cache)
                             yield output
+                        self.mark_cache_complete(left_value, self.right_cache)
                     finally:
                         self.right._eval_parent_ = right_prev
                 else:
